@@ -7,10 +7,10 @@ namespace IastModel
 open Node
 
 /-- what the operation visitor guarantees about its result `n'` for the source node `n` -/
-def VC (lo hi : Nat) (n' n : Node) : Prop :=
+def EVC (lo hi : Nat) (n' n : Node) : Prop :=
   ErAll lo hi n' n ∧ spanRel n' n ∧ Deep lo hi n' n ∧ isTempAssign n' = false ∧ (n'.isIdent = true → n' = n)
 
-theorem VC.mono {lo hi lo' hi' : Nat} {n' n : Node} (h : VC lo hi n' n) (h1 : lo' ≤ lo) (h2 : hi ≤ hi') : VC lo' hi' n' n :=
+theorem EVC.mono {lo hi lo' hi' : Nat} {n' n : Node} (h : EVC lo hi n' n) (h1 : lo' ≤ lo) (h2 : hi ≤ hi') : EVC lo' hi' n' n :=
   ⟨h.1.mono h1 h2, h.2.1, Deep.mono h1 h2 _ _ h.2.2.1, h.2.2.2.1, h.2.2.2.2⟩
 
 theorem isTempAssign_src {n : Node} (h : srcOk n = true) : isTempAssign n = false := by
@@ -22,7 +22,7 @@ theorem isTempAssign_src {n : Node} (h : srcOk n = true) : isTempAssign n = fals
   · rfl
 
 /-- the children of a node, visited one after the other -/
-def KL (lo hi : Nat) (ks' ks : List Node) : Prop := Forall2 (VC lo hi) ks' ks
+def KL (lo hi : Nat) (ks' ks : List Node) : Prop := Forall2 (EVC lo hi) ks' ks
 
 theorem KL.mono {lo hi lo' hi' : Nat} (h1 : lo' ≤ lo) (h2 : hi ≤ hi') : ∀ {ks' ks : List Node}, KL lo hi ks' ks → KL lo' hi' ks' ks := by
   intro ks'
@@ -53,7 +53,7 @@ theorem KL.deepL {lo hi : Nat} : ∀ {ks' ks : List Node}, KL lo hi ks' ks → D
 
 /-- erasing the visited children in order gives the source children, up to positions -/
 theorem eraseL_KL {lo hi : Nat} : ∀ {ks' ks : List Node}, KL lo hi ks' ks → ∀ ks'', BRgL ks' ks'' → ∀ σ,
-    ∃ Xs Δ, eraseL σ ks'' = (Xs, Δ ++ σ) ∧ Forall2 Sim Xs ks ∧ Win lo hi Δ := by
+    ∃ Xs Δ, eraseL σ ks'' = (Xs, Δ ++ σ) ∧ Forall2 ESim Xs ks ∧ Win lo hi Δ := by
   intro ks'
   induction ks' with
   | nil =>
@@ -75,7 +75,7 @@ theorem eraseL_KL {lo hi : Nat} : ∀ {ks' ks : List Node}, KL lo hi ks' ks → 
       · simp only [eraseL, e1, e2, List.append_assoc]
       · simp only [Forall2]; exact ⟨s1, s2⟩
 
-theorem Forall2_Sim_strip : ∀ {Xs ks : List Node}, Forall2 Sim Xs ks → stripL Xs = stripL ks := by
+theorem Forall2_Sim_strip : ∀ {Xs ks : List Node}, Forall2 ESim Xs ks → stripL Xs = stripL ks := by
   intro Xs
   induction Xs with
   | nil => intro ks h; cases ks <;> simp_all [Forall2, stripL]
